@@ -16,14 +16,14 @@ func exclusiveCheck(r *vrt.Result) string {
 		start, end int64
 	}
 	type call struct {
-		id          int
-		style       string
-		key, fn     string
-		at          int64
-		outcomeAt   int64
-		res, err    string
-		hasOutcome  bool
-		started     bool
+		id         int
+		style      string
+		key, fn    string
+		at         int64
+		outcomeAt  int64
+		res, err   string
+		hasOutcome bool
+		started    bool
 	}
 	var execs []*exec
 	open := map[string]*exec{}  // by name
